@@ -298,13 +298,20 @@ func init() {
 				return []string{"reset"}
 			}
 			if g.recs[len(g.recs)-1].State != "P" && r.Chance(1, 2) { // end with a node that is still pledging
-				tp := g.epoch + ((last-g.epoch)/c25OneDay+uint64(r.Range(1, 3)))*c25OneDay + uint64(r.Intn(24))*c25Hour + r.U64()%c25Hour
+				hp := uint64(r.Intn(24))
+				if r.Chance(2, 3) { // pledged at an hour whose +12h (and +7d) falls into the accept window
+					hp = uint64(r.Range(1, 6))
+				}
+				tp := g.epoch + ((last-g.epoch)/c25OneDay+uint64(r.Range(1, 3)))*c25OneDay + hp*c25Hour + r.U64()%c25Hour
 				g.add(g.nextN, tp, "P")
 				g.nextN++
 				last = tp
 			}
 			var sb strings.Builder
-			graphTs := last + r.U64()%(3*c25OneDay)
+			graphTs := last
+			if r.Chance(1, 3) { // later graph head: unfinalized snapshots near `last` are stale
+				graphTs = last + r.U64()%(3*c25OneDay)
+			}
 			fmt.Fprintf(&sb, "world %d %d %d", g.epoch, graphTs, len(g.recs))
 			nodes := []int{}
 			seen := map[int]bool{}
@@ -373,9 +380,9 @@ func init() {
 					}
 					tsc := ts
 					if stillPledging && r.Chance(3, 4) {
-						el := Pick(r, []uint64{12*c25Hour - 1, 12 * c25Hour, 13 * c25Hour, 40 * c25Hour, 7 * 24 * c25Hour, 7*24*c25Hour + 1})
+						el := Pick(r, []uint64{12*c25Hour - 1, 12*c25Hour - 1, 12 * c25Hour, 13 * c25Hour, 40 * c25Hour, 7 * 24 * c25Hour, 7*24*c25Hour + 1, 7*24*c25Hour + 1})
 						tsc = lastRec.Ts + el
-						if r.Chance(1, 2) { // move into the accept window of that day
+						if r.Chance(1, 3) { // move into the accept window of that day
 							tsc = g.epoch + (tsc-g.epoch)/c25OneDay*c25OneDay + uint64(r.Range(13, 19))*c25Hour + off
 						}
 					}
@@ -390,9 +397,9 @@ func init() {
 					}
 					tsa := ts
 					if stillPledging && r.Chance(4, 5) {
-						el := Pick(r, []uint64{12*c25Hour - 1, 12 * c25Hour, 12*c25Hour + 1, 20 * c25Hour, 50 * c25Hour, 7*24*c25Hour - 1, 7 * 24 * c25Hour, 7*24*c25Hour + 1})
+						el := Pick(r, []uint64{12*c25Hour - 1, 12*c25Hour - 1, 12 * c25Hour, 12 * c25Hour, 12*c25Hour + 1, 20 * c25Hour, 50 * c25Hour, 7*24*c25Hour - 1, 7 * 24 * c25Hour, 7 * 24 * c25Hour, 7*24*c25Hour + 1, 7*24*c25Hour + 1})
 						tsa = lastRec.Ts + el
-						if r.Chance(2, 3) {
+						if r.Chance(1, 3) { // elsewhere in the accept window of that day
 							tsa = g.epoch + (tsa-g.epoch)/c25OneDay*c25OneDay + uint64(r.Range(13, 19))*c25Hour + off
 						}
 					}
